@@ -32,13 +32,19 @@ for t in sorted(sp):
     if res.get(t)!='pass': print(t)
 E
 suite=PASS
-if [ -s "$wt/.missing.txt" ]; then
-  echo "first run: $(wc -l < "$wt/.missing.txt") stable tests not passing; retrying their packages" | tee -a "$log"
-  for pkg in $(cut -d: -f1 "$wt/.missing.txt" | sort -u); do
+# stable tests that did not pass are retried per package, up to 4 times (several packages use fixed
+# TCP ports or wall-clock slots and fail on their own on a busy machine)
+cp "$wt/.missing.txt" "$wt/.todo.txt"
+for attempt in 1 2 3 4; do
+  [ -s "$wt/.todo.txt" ] || break
+  echo "attempt $attempt: $(wc -l < "$wt/.todo.txt") stable tests not passing yet; retrying their packages" | tee -a "$log"
+  sleep $((attempt*15))
+  : > "$wt/.retry.json"
+  for pkg in $(cut -d: -f1 "$wt/.todo.txt" | sort -u); do
     rel=${pkg#github.com/LemoFoundationLtd/lemochain-core}
-    go test -json -vet=off -count=1 -timeout 25m ".$rel" >> "$wt/.suite2.json" 2>>"$log"
+    go test -json -vet=off -count=1 -timeout 25m ".$rel" >> "$wt/.retry.json" 2>>"$log"
   done
-  python3 - "$wt/.suite2.json" "$wt/.missing.txt" > "$wt/.missing2.txt" <<'E'
+  python3 - "$wt/.retry.json" "$wt/.todo.txt" > "$wt/.todo2.txt" <<'E2'
 import json,sys
 res={}
 for l in open(sys.argv[1]):
@@ -47,9 +53,10 @@ for l in open(sys.argv[1]):
     if e.get('Test') and e['Action'] in ('pass','fail','skip'): res[e['Package']+'::'+e['Test']]=e['Action']
 for t in open(sys.argv[2]).read().split():
     if res.get(t)!='pass': print(t)
-E
-  if [ -s "$wt/.missing2.txt" ]; then suite=FAIL; cat "$wt/.missing2.txt" | tee -a "$log"; fi
-fi
+E2
+  mv "$wt/.todo2.txt" "$wt/.todo.txt"
+done
+if [ -s "$wt/.todo.txt" ]; then suite=FAIL; cat "$wt/.todo.txt" | tee -a "$log"; fi
 echo "suite with change: $suite" | tee -a "$log"
 # (3)/(4) demonstration
 demo_with=NA; demo_without=NA
